@@ -1,3 +1,4 @@
 SPECIFICATION GSpec
 CONSTANTS
+  AssignRule = "strict"
   CfgSpace <- Chunks
